@@ -894,6 +894,8 @@ func hash64(s string) uint64 {
 
 func TestCheck(t *testing.T) {
 	r := vf.Start("C16", "exploration")
+	// supplement (sampling, decides nothing): concurrent callers on one real client/server over loopback under the race detector
+	r.RacePass(vf.Pick(r, 2, 30), "github.com/evstack/ev-node/")
 	if out := os.Getenv("VERIF_C16_CONC_OUT"); out != "" { // a shard process of the concurrent part
 		concChild(t, r.Thorough(), out)
 		return
